@@ -588,6 +588,75 @@ class Issuer:
     return out
 
 
+class JavaUtilRandom:
+  """java.util.Random + new BigInteger(bits, rnd), continuing one stream
+  (transcribed from the JDK; independent of rng.JavaRandom)."""
+
+  def __init__(self, seed):
+    self.s = (seed ^ 0x5DEECE66D) & ((1 << 48) - 1)
+
+  def next32(self):
+    self.s = (self.s * 0x5DEECE66D + 0xB) & ((1 << 48) - 1)
+    return self.s >> 16
+
+  def biginteger(self, bits):
+    nb = (bits + 7) // 8
+    buf = bytearray(nb)
+    i = 0
+    while i < nb:
+      rnd = self.next32()
+      k = min(nb - i, 4)
+      while k > 0:
+        buf[i] = rnd & 0xFF
+        rnd >>= 8
+        i += 1
+        k -= 1
+    buf[0] &= (1 << (8 - (8 * nb - bits))) - 1
+    return int.from_bytes(buf, "big")
+
+
+def sigs_java_lcg(r, c, label, count):
+  """Signatures whose nonces come from one java.util.Random stream."""
+  iss = Issuer(r, c, label)
+  jr = JavaUtilRandom(r.getrandbits(48))
+  out = []
+  while len(out) < count:
+    k = jr.biginteger(c.bits)
+    if 0 < k < int(c.n):
+      out.append(iss.make(r, k, "lcg:java", False,
+                          expect=["CheckLCGNonceJavaUtilRandom"]))
+  return out
+
+
+_UPSTREAM_GMP = None
+
+
+def sigs_upstream_gmp_lcg(label):
+  """The three GMP-LCG signatures of upstream's own test data (secp256r1),
+  as artifacts; [] if the test module cannot be imported."""
+  global _UPSTREAM_GMP
+  if _UPSTREAM_GMP is None:
+    try:
+      from paranoid_crypto.lib import paranoid_ecdsa_test as t
+      vecs = []
+      for pb in t.bad_ecdsa_lcg_gmp:
+        vecs.append((int(pb.issuer_key_info.curve_type),
+                     pb.issuer_key_info.x.hex(), pb.issuer_key_info.y.hex(),
+                     pb.ecdsa_sig_info.r.hex(), pb.ecdsa_sig_info.s.hex(),
+                     pb.ecdsa_sig_info.message_hash.hex()))
+      _UPSTREAM_GMP = vecs
+    except Exception:  # pylint: disable=broad-except
+      _UPSTREAM_GMP = []
+  out = []
+  for cid, ix, iy, rr, ss, hh in _UPSTREAM_GMP:
+    out.append({"t": "sig", "curve": cid, "ix": ix, "iy": iy, "r": rr,
+                "s": ss, "h": hh, "fam": "lcg:gmp", "healthy": False,
+                "issuer": label, "d": None, "wf": True,
+                "truth": {"expect": ["CheckLCGNonceGMP"],
+                          "source": "upstream test vectors"}})
+  return out
+
+
 # ----------------------------------------------------------------------------
 # protobuf construction (runs inside subject / fresh children)
 # ----------------------------------------------------------------------------
